@@ -295,6 +295,12 @@ func (w *World) Apply(op Op) (v *Violation) {
 	if !w.icfgSet {
 		w.rememberInitialCfg()
 	}
+	switch op.Kind {
+	case "set", "remove", "setnil", "read":
+		if op.K == nil {
+			op.K = []byte{} // JSON omits the empty key; the generators only produce non-nil keys
+		}
+	}
 	w.Log = append(w.Log, op)
 	defer func() {
 		if r := recover(); r != nil {
